@@ -1,5 +1,5 @@
 (** C11 — a small multi-client abstraction: several client tasks (each one driven by
-    [Decode.handle_bytes] on its own bytes) share one bb8 pool of server connections.
+    [Decode.handle_bytes] on its own bytes) share one pool of server connections.
 
     A connection carries two bits: [dirty] = the TRUTH (the backend session carries somebody's
     state: open transaction, COPY, pending data, SET/PREPARE), [unclean] = what
@@ -9,7 +9,8 @@
     [clean_handoff] — dirty implies unclean — is what the C02 check establishes separately.
 
     Effects (see [Decode.eff]) are interpreted on the shared state:
-      FxCheckout      take an idle connection, or open one if [opened < max]
+      FxCheckout      take an idle connection, or open one (whether a checkout succeeds at all —
+                      pool_size, bans, timeouts — is bb8's / C04's business: an input [e_avail])
       FxToServer      the held connection's bits become the event's [e_dirty]/[e_unclean]
       FxRelease, FxCleanupOnEof
                       checkin_cleanup (server.rs:1343-1387): either the connection is marked bad
@@ -25,109 +26,110 @@ Open Scope nat_scope.
 
 Record conn := mkK { dirty : bool; unclean : bool }.
 Definition fresh : conn := mkK false false.
-Definition cleanb (k : conn) : bool := negb (dirty k).
 
 Record cl := mkCl { c_st : pstate; c_pend : bytes; c_held : option conn;
                     c_alive : bool;      (* the task exists *)
                     c_blocked : bool }.  (* the task waits for its server and never looks at the client socket again *)
 Definition new_cl : cl := mkCl PreStartup [] None true false.
 
-Record world := mkW { free : list conn; opened : nat; wmax : nat; cls : list (nat * cl); regs : list nat }.
+Record world := mkW { free : list conn;          (* idle connections in the pool *)
+                      opened : nat;              (* live server connections *)
+                      cls : list (nat * cl) }.
 
 Fixpoint getc (x : nat) (l : list (nat * cl)) : option cl :=
   match l with [] => None | (y, c) :: r => if Nat.eqb y x then Some c else getc x r end.
+Definition getd (x : nat) (l : list (nat * cl)) : cl := match getc x l with Some c => c | None => new_cl end.
 Fixpoint setc (x : nat) (v : cl) (l : list (nat * cl)) : list (nat * cl) :=
   match l with
   | [] => [(x, v)]
   | (y, c) :: r => if Nat.eqb y x then (y, v) :: r else (y, c) :: setc x v r
   end.
 Definition is_held (c : cl) : bool := match c_held c with Some _ => true | None => false end.
-Definition held_count (l : list (nat * cl)) : nat := length (filter (fun p => is_held (snd p)) l).
+Definition b2n (b : bool) : nat := if b then 1 else 0.
+Fixpoint held_count (l : list (nat * cl)) : nat :=
+  match l with [] => 0 | (_, c) :: r => b2n (is_held c) + held_count r end.
 
 Record event := mkE { e_cid : nat;
-                      e_close : bool;            (* the client closes its socket (after the bytes) *)
+                      e_close : bool;            (* the client closes its socket after the bytes *)
                       e_bytes : bytes; e_obs : list zrep;
+                      e_avail : bool;            (* a checkout would succeed (bb8 / C04) *)
                       e_dirty : bool; e_unclean : bool;   (* the held connection after this event's traffic *)
                       e_cleanup_fails : bool }.  (* checkin_cleanup marks the connection bad *)
 
-(** Shared-state part touched by one client's effects: (free list, opened, own connection, registry). *)
-Record sh := mkS { s_free : list conn; s_open : nat; s_held : option conn; s_regs : list nat }.
+(** the part of the shared state one client's effects can touch: (idle list, live count, own connection) *)
+Record sh := mkS { s_free : list conn; s_open : nat; s_held : option conn }.
 
-Definition fx (x : nat) (e : event) (max : nat) (s : sh) (f : eff) : sh :=
+Definition fx (e : event) (s : sh) (f : eff) : sh :=
   match f with
   | FxCheckout =>
     match s_held s with
     | Some _ => s
     | None =>
       match s_free s with
-      | k :: r => mkS r (s_open s) (Some k) (s_regs s)
-      | [] => if Nat.ltb (s_open s) max then mkS [] (S (s_open s)) (Some fresh) (s_regs s) else s
+      | k :: r => mkS r (s_open s) (Some k)
+      | [] => mkS [] (S (s_open s)) (Some fresh)
       end
     end
   | FxToServer =>
     match s_held s with
-    | Some _ => mkS (s_free s) (s_open s) (Some (mkK (e_dirty e) (e_unclean e))) (s_regs s)
+    | Some _ => mkS (s_free s) (s_open s) (Some (mkK (e_dirty e) (e_unclean e)))
     | None => s
     end
   | FxRelease | FxCleanupOnEof =>
     match s_held s with
-    | Some _ => if e_cleanup_fails e then mkS (s_free s) (pred (s_open s)) None (s_regs s)
-                else mkS (fresh :: s_free s) (s_open s) None (s_regs s)
+    | Some _ => if e_cleanup_fails e then mkS (s_free s) (pred (s_open s)) None
+                else mkS (fresh :: s_free s) (s_open s) None
     | None => s
     end
   | FxDropHeld =>
     match s_held s with
-    | Some k => if unclean k then mkS (s_free s) (pred (s_open s)) None (s_regs s)
-                else mkS (k :: s_free s) (s_open s) None (s_regs s)
+    | Some k => if unclean k then mkS (s_free s) (pred (s_open s)) None
+                else mkS (k :: s_free s) (s_open s) None
     | None => s
     end
-  | FxRegister => mkS (s_free s) (s_open s) (s_held s) (x :: s_regs s)
-  | FxReply _ | FxCancel | FxAdmin => s
+  | FxRegister | FxReply _ | FxCancel | FxAdmin => s
   end.
-
-Definition avail (w : world) : bool :=
-  match free w with _ :: _ => true | [] => Nat.ltb (opened w) (wmax w) end.
 
 Definition with_avail (o : opts) (a : bool) : opts :=
   mkO (o_chk o) (o_parser o) (o_cache o) (o_regex o) (o_rw o) (o_maxlen o) a (o_user o) (o_db o)
       (o_user_trust o) (o_admin_trust o) (o_pw_user o) (o_pw_admin o) (o_custom o) (o_ph o) (o_adminfx o).
 
+(** what an event leaves of the client: (state, pending bytes, alive, blocked, effects of the socket close) *)
+Definition outcome_of (e : event) (c : cl) (r : rres) : pstate * bytes * bool * bool * list eff :=
+  match r_fin r with
+  | FEnd _ | FStuck => (c_st c, [], false, false, [])
+  | FBlocked st => (st, [], true, true, [])
+  | FCont st => if e_close e then (st, [], false, false, snd (on_eof st)) else (st, [], true, false, [])
+  | FNeed st p => if e_close e then (st, [], false, false, snd (on_eof st)) else (st, p, true, false, [])
+  end.
+
+Definition run_of (o : opts) (e : event) (c : cl) : rres :=
+  handle_bytes (with_avail o (e_avail e)) (c_st c) (c_pend c ++ e_bytes e) (e_obs e).
+
 (** One event of client [x := e_cid e]. *)
 Definition ev (o : opts) (w : world) (e : event) : world :=
   let x := e_cid e in
-  let c := match getc x (cls w) with Some c => c | None => new_cl end in
+  let c := getd x (cls w) in
   if negb (c_alive c) || c_blocked c then w        (* no task reads this socket any more *)
   else
-    let r := handle_bytes (with_avail o (avail w)) (c_st c) (c_pend c ++ e_bytes e) (e_obs e) in
-    let s1 := fold_left (fx x e (wmax w)) (r_effs r) (mkS (free w) (opened w) (c_held c) (regs w)) in
-    let fin (s : sh) (c' : cl) := mkW (s_free s) (s_open s) (wmax w) (setc x c' (cls w)) (s_regs s) in
-    match r_fin r with
-    | FEnd _ | FStuck => fin s1 (mkCl (c_st c) [] (s_held s1) false false)
-    | FBlocked st => fin s1 (mkCl st [] (s_held s1) true true)
-    | FCont st =>
-      if e_close e then
-        let s2 := fold_left (fx x e (wmax w)) (snd (on_eof st)) s1 in fin s2 (mkCl st [] (s_held s2) false false)
-      else fin s1 (mkCl st [] (s_held s1) true false)
-    | FNeed st p =>
-      if e_close e then
-        let s2 := fold_left (fx x e (wmax w)) (snd (on_eof st)) s1 in fin s2 (mkCl st [] (s_held s2) false false)
-      else fin s1 (mkCl st p (s_held s1) true false)
-    end.
+    let r := run_of o e c in
+    let '(st', pend, alive, blocked, extra) := outcome_of e c r in
+    let s2 := fold_left (fx e) (r_effs r ++ extra) (mkS (free w) (opened w) (c_held c)) in
+    mkW (s_free s2) (s_open s2) (setc x (mkCl st' pend (s_held s2) alive blocked) (cls w)).
 
 Definition exec (o : opts) (w : world) (tr : list event) : world := fold_left (ev o) tr w.
 
-Definition world0 (max : nat) : world := mkW [] 0 max [] [].
+Definition world0 : world := mkW [] 0 [].
 
 (** C02's contribution, as a hypothesis on the environment's choices. *)
 Definition clean_handoff (tr : list event) : Prop := Forall (fun e => e_dirty e = true -> e_unclean e = true) tr.
 
 (** The known class: an event whose bytes make the sender's task wait for a server reply that
-    never comes (CopyDone/CopyFail outside COPY, or a silent backend). *)
+    never comes (F21c; or a backend that stays silent). *)
 Definition blocks (o : opts) (w : world) (e : event) : bool :=
-  let c := match getc (e_cid e) (cls w) with Some c => c | None => new_cl end in
+  let c := getd (e_cid e) (cls w) in
   if negb (c_alive c) || c_blocked c then false
-  else match r_fin (handle_bytes (with_avail o (avail w)) (c_st c) (c_pend c ++ e_bytes e) (e_obs e)) with
-       | FBlocked _ => true | _ => false end.
+  else match r_fin (run_of o e c) with FBlocked _ => true | _ => false end.
 
 Fixpoint no_block (o : opts) (w : world) (tr : list event) : bool :=
   match tr with
@@ -135,12 +137,13 @@ Fixpoint no_block (o : opts) (w : world) (tr : list event) : bool :=
   | e :: r => negb (blocks o w e) && no_block o (ev o w e) r
   end.
 
+Definition cl_ok (c : cl) : Prop :=
+  (c_alive c = true -> is_held c = holds (c_st c)) /\
+  (c_alive c = false -> c_held c = None) /\
+  (c_blocked c = true -> c_alive c = true) /\
+  (forall k, c_held c = Some k -> dirty k = true -> unclean k = true).
+
 Definition inv (w : world) : Prop :=
-  Forall (fun k => dirty k = false) (free w) /\
-  opened w = length (free w) + held_count (cls w) /\
-  opened w <= wmax w /\
-  (forall x c, getc x (cls w) = Some c ->
-     (is_held c = holds (c_st c) || (c_blocked c && is_held c)) /\
-     (c_alive c = false -> c_held c = None) /\
-     (c_blocked c = true -> c_alive c = true) /\
-     (forall k, c_held c = Some k -> dirty k = true -> unclean k = true)).
+  Forall (fun k => dirty k = false) (free w) /\          (* whatever anybody checks out next is clean *)
+  opened w = length (free w) + held_count (cls w) /\      (* every live connection is idle in the pool or held by a client *)
+  (forall x c, getc x (cls w) = Some c -> cl_ok c).
